@@ -1945,19 +1945,21 @@ impl ToTokens for Query {
                     ::proto_vulcan::operator::fresh::Fresh::new(
                         vec![::std::clone::Clone::clone(&__query__)],
                         ::proto_vulcan::GoalCast::cast_into(
-                            ::proto_vulcan::operator::conj::InferredConj::from_array(&[
-                                ::proto_vulcan::GoalCast::cast_into(
-                                    ::proto_vulcan::relation::eq::eq(
-                                        ::std::clone::Clone::clone(&__query__),
-                                        ::proto_vulcan::lterm::LTerm::from_array(&[#(::proto_vulcan::Upcast::to_super(&#query)),*]),
-
-                                    )
-                                ),
+                            ::proto_vulcan::state::reified(
                                 ::proto_vulcan::operator::conj::Conj::from_array(&[
-                                    #( ::proto_vulcan::GoalCast::cast_into( #body ) ),*
+                                    ::proto_vulcan::GoalCast::cast_into(
+                                        ::proto_vulcan::relation::eq::eq(
+                                            ::std::clone::Clone::clone(&__query__),
+                                            ::proto_vulcan::lterm::LTerm::from_array(&[#(::proto_vulcan::Upcast::to_super(&#query)),*]),
+
+                                        )
+                                    ),
+                                    ::proto_vulcan::operator::conj::Conj::from_array(&[
+                                        #( ::proto_vulcan::GoalCast::cast_into( #body ) ),*
+                                    ]),
                                 ]),
-                                ::proto_vulcan::state::reify(::std::clone::Clone::clone(&__query__)),
-                            ]),
+                                ::std::clone::Clone::clone(&__query__),
+                            ),
                         )
                     )
                 )
